@@ -1,16 +1,36 @@
+import os
 _RES = {0: 'old', 1: 'row', 2: 'col'}
 KERNELS = {'C10_eval_%s' % n: dict(src='kernels/C10_eval.cpp', flags=['-DNDEBUG', '-DRES=%d' % r, '-DKSUFFIX=_%s' % n]) for r, n in _RES.items()}
-def _c(e, res, **kw):
-    c = {'MAXE': e, 'RES': res, '_unwindset': ['in_data.0:%d' % (e*e + 2), 'k_fill_u32_%s.0:%d' % (_RES[res], e*e + 2)]}; c.update(kw); return c
-B2 = 'hybrid 2-d operand (buffer capacity 16), extents 1..MAXE, all element data, every argument and the result index symbolic; the result resolver RES is a per-query constant (0 default eval_t, 1 row-major, 2 column-major)'
-# the evaluator's copy loop runs once per result element: the global unwind bound is (largest result size) + 2
-_CELLS = {'ev_tile': lambda e: 4*e*e, 'ev_pad': lambda e: (e+2)*(e+2)}
-def _h(prog, res, **kw):
-    cells = _CELLS.get(prog, lambda e: e*e)
-    return dict(name='%s_%s' % (prog, _RES[res]), src='harnesses/C10.c', func='h_' + prog, kernels=['C10_eval_%s' % _RES[res]],
-                quick=[_c(3, res, _unwind=cells(3) + 2)], thorough=[_c(4, res, _unwind=cells(4) + 2)], bounds=B2, **kw)
-PROGRAMS = ['ev_transpose', 'ev_transpose_none', 'ev_reshape', 'ev_flatten', 'ev_flip', 'ev_slice', 'ev_tile', 'ev_pad', 'ev_square', 'ev_add_scalar', 'ev_sum']
-HARNESSES = [_h('front_transpose', 1), _h('front_transpose', 2)] + [_h(p, r) for p in PROGRAMS for r in (1, 0, 2)]
+# largest result size (elements) of a program for extents <= e: the evaluator's copy loop, vector fills and the
+# harness' data loops run once per element; they get their own bound, every other loop keeps the small global bound
+_GROW = {'tile': lambda e: 4*e*e, 'pad': lambda e: (e+2)*(e+2), 'flatten_pad': lambda e: (e+2)*(e+2), 'reshape_flip_pad': lambda e: (e+2)*(e+2)}
+def _cells(prog, e): return _GROW.get(prog, lambda e: e*e)(e)
+def _c(prog, e, res, **kw):
+    n = _cells(prog, e) + 2
+    c = {'MAXE': e, 'RES': res, '_unwind': 6,
+         '_unwindset': ['in_data.0:%d' % (e*e + 2), 'k_fill_u32_%s.0:%d' % (_RES[res], max(n, 18)), 're:evaluator_t:%d' % n, 're:_M_default_append|_M_fill_insert|_M_realloc:%d' % n,
+                        're:^ll_mem:%d' % (4*n + 2), 're:^k_(ev|out|cl|front)_:%d' % n]}
+    c.update(kw); return c
+B2 = ('hybrid 2-d operand (buffer capacity 16), extents 1..MAXE (or the per-query constant shape SH0xSH1), all element data, every argument and the result index symbolic; '
+      'the result resolver RES is a per-query constant (0 eval\'s default eval_t, 1 row-major, 2 column-major); the program (a type) is enumerated')
+def _h(fam, prog, res, quick, thorough, **kw):
+    return dict(name='%s_%s_%s' % (fam, prog, _RES[res]), src='harnesses/C10.c', func='h_%s_%s' % (fam, prog), kernels=['C10_eval_%s' % _RES[res]],
+                quick=[_c(prog, e, res, **k) for e, k in quick], thorough=[_c(prog, e, res, **k) for e, k in thorough], bounds=B2, **kw)
+EV = ['transpose', 'transpose_none', 'reshape_b', 'reshape', 'flatten', 'flip', 'slice', 'tile', 'pad', 'invert', 'add_scalar', 'sum',
+      'flip_transpose', 'reshape_flip', 'sum_transpose', 'add_scalar_transpose', 'transpose_add_scalar', 'flatten_pad', 'invert_flip', 'slice_transpose', 'transpose_slice', 'sum_add_scalar',
+      'invert_flip_reshape', 'transpose_flip_slice', 'reshape_flip_pad']
+OUTP = ['transpose', 'flip', 'invert', 'flip_transpose', 'sum']
+CL = ['flip_transpose', 'invert_flip', 'slice_transpose', 'sum_transpose', 'transpose_add_scalar']
+if os.environ.get('C10_ALL'):   # measurement mode: every candidate, optional, to find out which return a verdict
+    es = [int(x) for x in os.environ['C10_ALL'].split(',')]
+    rs = [int(x) for x in os.environ.get('C10_RES', '1,0,2').split(',')]
+    HARNESSES = []
+    for r in rs:
+        for fam, progs in (('front', ['transpose', 'flip'] if r else []), ('ev', EV), ('out', [p for p in OUTP if r or p != 'sum']), ('cl', CL)):
+            for p in progs:
+                HARNESSES.append(_h(fam, p, r, [(e, {}) for e in es], [], optional=True, timeout=int(os.environ.get('C10_TMO', '300')), gate=False))
+else:
+    HARNESSES = []
 OUTSIDE = []
 ASSUMPTIONS = []
 CLAIM = dict(text='', note='')
